@@ -214,6 +214,10 @@ def inside(lo, hi, ranges):
     return False
 
 
+def readers_kind(opener):
+    return 'xarray' if opener == 'xarray' else readers.OPENERS[opener]['kind']
+
+
 def check_op(fm, op, opener, reqs, state, slot_key):
     """Checks the requests of one operation.  Returns (violation name or None, description, key)."""
     L = fm.L
@@ -282,8 +286,12 @@ def check_op(fm, op, opener, reqs, state, slot_key):
             if seen and lo < seen[-1]:
                 return 'byte-fetched-twice', f'{call} requested bytes [{lo},{min(hi, seen[-1])}) more than once', None
             seen.append(hi)
-    cold = slot_key not in state['warm']
+    # "certainly cold" = nothing has been asked of this object yet.  For the emulator that is the whole
+    # object, not the accessor: whether its accessors keep separate caches is an implementation choice
+    cold_key = slot_key[:2] if readers_kind(opener) == 'emulator' else slot_key
+    cold = cold_key not in state['warm'] and slot_key not in state['warm']
     state['warm'].add(slot_key)
+    state['warm'].add(cold_key)
     if cold and call[0] not in NO_IO:
         if not preload and touched != need['blocks']:
             missing = sorted(need['blocks'] - touched)[:8]
@@ -330,6 +338,7 @@ def one_run(ctx, run, ops=None, trace=None, entry=None):
                 # out-of-range arguments and the like are not C07's subject, but the call may have
                 # filled caches before it raised: the reader is no longer certainly cold
                 state['warm'].add((op[1], gen.get(op[1], 0), route_of(op[2])))
+                state['warm'].add((op[1], gen.get(op[1], 0)))
                 return
             counts['calls_checked'] += 1
             if not reqs:
